@@ -134,6 +134,61 @@ def judge(case, out):
     return fails
 
 
+def wake_cases(tier, seed):
+    rnd = random.Random(seed * 77 + 5)
+    cases = ["p w W1 d400 d400 d300", "W1 p d400 d400 d300", "w w d400 d300", "p d400 d300", "w d400 p W2 d400 d400 d300",
+             "w p W1 d400 w d400 d300", "W2 p w d400 d400 d400 d300"]
+    for _ in range(10 if tier == "quick" else 120):
+        ops = []
+        for _ in range(rnd.randint(3, 8)):
+            ops.append(rnd.choice(["p", "w", "W1", "W2", "d300", "d300"]))
+        ops += ["d300", "d300"]
+        cases.append(" ".join(ops))
+    return cases
+
+
+def judge_wake(case, out):
+    """wakeup() makes the current or the next wait return promptly - also when it is issued from a source callback; one wait
+    consumes the pending wake-ups; without a cause the wait lasts its timeout"""
+    ops = case.split()
+    obs = out.split()
+    nd = [o for o in ops if o[0] == "d"]
+    if len(obs) != len(nd):
+        return ["no result: %s" % out[:80]]
+    notified = pinged = False
+    cbw = 0
+    k = 0
+    for o in ops:
+        if o == "p":
+            pinged = True
+        elif o == "w":
+            notified = True
+        elif o[0] == "W":
+            cbw = int(o[1:])
+        elif o[0] == "d":
+            ms = int(o[1:])
+            el, calls = (int(x) for x in obs[k].split(":"))
+            k += 1
+            if pinged or notified:
+                if el > 150:
+                    return ["lost wakeup: dispatch %d waited %d ms although a %s was pending when it started waiting" % (k, el, "ping" if pinged else "wakeup()")]
+                want_calls = 1 if pinged else 0
+                if calls != want_calls:
+                    return ["dispatch %d ran %d ping callbacks, %d expected" % (k, calls, want_calls)]
+                notified = False
+                if pinged:
+                    pinged = False
+                    if cbw:
+                        notified = True
+                        cbw = 0
+            else:
+                if el + 5 < ms:
+                    return ["spurious wake: dispatch %d returned after %d ms of %d with nothing pending" % (k, el, ms)]
+                if calls:
+                    return ["dispatch %d ran a ping callback without a ping" % k]
+    return []
+
+
 def main(tier, seed):
     chk = vlib.Check("C11", tier, seed)
     st = vlib.standard_front(chk)
@@ -174,6 +229,25 @@ def main(tier, seed):
         "samples": [{"case": c, "impl": i, "model": m} for c, i, m in list(zip(cases, impl, model))[:2]],
         "model_impl_disagreements": len(diffs),
     })
+    # wakeup() from inside a source callback (sequential, timed): harness crunw
+    wcases = wake_cases(tier, seed)
+    with ThreadPoolExecutor(max_workers=8) as ex:
+        wout = list(ex.map(lambda c: p_c03.run_batch(vlib.HARNESS, "crunw", [c])[0], wcases))
+    wbad = []
+    for c, o in zip(wcases, wout):
+        fs = judge_wake(c, o)
+        if fs:
+            o = p_c03.run_batch(vlib.HARNESS, "crunw", [c])[0]      # timing: re-measure once
+            fs = judge_wake(c, o)
+        if fs:
+            wbad.append((c, o, fs))
+    chk.cov["wakeup_from_callback_cases"] = {"cases": len(wcases), "sample": {"case": wcases[0], "result(elapsed_ms:callbacks per dispatch)": wout[0]}}
+    chk.cov["evaluations"] += len(wcases)
+    if wbad and not bad:
+        c, o, fs = min(wbad, key=lambda x: len(x[0]))
+        chk.violation("oracle-wake", "C11 violated on the real code: %s\nwake ops (p ping, w wakeup, Wk callback calls wakeup k times, d<ms> dispatch): %s\n# measured (elapsed_ms:callbacks per dispatch): %s"
+                      % (fs[0], c, o))
+        return chk.finish()
     if bad:
         c, i, fs = min(bad, key=lambda x: len(x[0]))
         chk.violation("oracle", "C11 violated on the real code: %s\n%s\n# executed steps and observations: %s\n(%d failing schedules)" % (fs[0], c, i, len(bad)))
@@ -192,6 +266,17 @@ def main(tier, seed):
 
 
 def replay(path):
+    wc = [l.split(":", 1)[1].strip() for l in open(path) if l.startswith("wake ops (")]
+    if wc:
+        vlib.build_harness()
+        rc = 0
+        for c in wc:
+            o = p_c03.run_batch(vlib.HARNESS, "crunw", [c])[0]
+            fs = judge_wake(c, o)
+            print(c, "->", o, fs or "ok")
+            if fs:
+                rc = 1
+        return rc
     cases = [l.strip() for l in open(path) if l.count("|") == 2 and l.split()[0] in ("run", "blockon")]
     vlib.build_harness()
     vlib.build_model()
